@@ -187,7 +187,7 @@ func c01Rel(x *mc.Exec) {
 	one := ones[x.Choose(len(ones), "to-one")]
 	// includes ids that JSON must escape (control characters, DEL, a
 	// non-printable supplementary-plane rune, quote and backslash)
-	pool := []string{"a", "b", "c\x01\x7f", "\a\v\x00\U000E0001\"\\é\\u003e"}
+	pool := []string{"a", "b", "c\x01\x7f", "\a\v\x00\U000E0001\"\\é\\u003e", ""}
 	maxLen := 3
 	if Thorough() {
 		maxLen = 4
@@ -199,8 +199,9 @@ func c01Rel(x *mc.Exec) {
 	}
 	twos := []string{"", "t2"}
 	two := twos[x.Choose(len(twos), "second to-one")]
-	d := TypeD{Name: "t", Attrs: []AttrD{{"s", Kind{j.AttrTypeString, false}}},
-		Rels: []RelD{{"one", true, "u", "back"}, {"many", false, "u", ""}, {"two", true, "u", ""}}}
+	// "S" / "One": fields whose names differ from others by letter case only, holding other values
+	d := TypeD{Name: "t", Attrs: []AttrD{{"s", Kind{j.AttrTypeString, false}}, {"S", Kind{j.AttrTypeString, false}}},
+		Rels: []RelD{{"one", true, "u", "back"}, {"many", false, "u", ""}, {"two", true, "u", ""}, {"One", true, "u", ""}}}
 	u := TypeD{Name: "u", Rels: []RelD{{"back", false, "t", "one"}}}
 	schema := BuildSchema([]TypeD{d, u}, []bool{soft, softU})
 	res := schema.Types[0].New()
@@ -208,6 +209,9 @@ func c01Rel(x *mc.Exec) {
 	res.Set("one", one)
 	res.Set("many", append([]string{}, many...))
 	res.Set("two", two)
+	res.Set("s", "lower")
+	res.Set("S", "UPPER")
+	res.Set("One", "upper-"+one)
 	desc := fmt.Sprintf("%s id=%q one=%q two=%q many=%v other=%s", implName(soft), id, one, two, many, implName(softU))
 	x.Render(desc)
 	x.R.Mark("nontrivial", mc.Hash(desc))
